@@ -99,6 +99,105 @@ func sourceUntouched(e *env, stage string) *finding {
 	return nil
 }
 
+// historyAlignment: a layer that survives unmodified (same digest as a source or
+// base layer) must still be described by the history entry it had: the
+// created_by of the non-empty history entry at its position equals the one the
+// generator gave that layer (every generated created_by is unique).
+func historyAlignment(e *env, root string) *finding {
+	if hasKind(e.c, func(k string) bool { return k == "buildarg-rm" }) {
+		return nil // rewrites created_by texts
+	}
+	// digest -> created_by, from everything that was materialised
+	by := map[string]string{}
+	conflict := map[string]bool{}
+	add := func(layers []LayerSpec, hist []HistSpec) {
+		j := 0
+		for _, h := range hist {
+			if h.Empty {
+				continue
+			}
+			if j >= len(layers) {
+				return
+			}
+			d := sha256Dig(compress(layers[j].Comp, tarBytes(layers[j].Files)))
+			if prev, ok := by[d]; ok && prev != h.CreatedBy {
+				conflict[d] = true
+			}
+			by[d] = h.CreatedBy
+			j++
+		}
+	}
+	for _, im := range e.c.Images {
+		if im.History == nil {
+			continue
+		}
+		p := partsOf(e.c, im)
+		add(p.layers, p.hist)
+	}
+	if e.c.Base != nil {
+		add(e.c.Base.OldLayers, e.c.Base.OldHist)
+		add(e.c.Base.NewLayers, e.c.Base.NewHist)
+	}
+	v := e.tgt.view()
+	var walk func(d string, depth int) *finding
+	walk = func(d string, depth int) *finding {
+		body, _, ok := v.Get(d)
+		if !ok || depth > 3 {
+			return nil
+		}
+		var m gManifest
+		if json.Unmarshal(body, &m) != nil {
+			return nil
+		}
+		if m.Manifests != nil {
+			for _, en := range *m.Manifests {
+				if isManifestMT(en.MediaType) {
+					if f := walk(en.Digest, depth+1); f != nil {
+						return f
+					}
+				}
+			}
+			return nil
+		}
+		if m.Config == nil || (m.Config.MediaType != mtOCIConfig && m.Config.MediaType != mtDocConfig) {
+			return nil
+		}
+		cb, _, ok := v.Get(m.Config.Digest)
+		if !ok {
+			return nil
+		}
+		var cfg struct {
+			History []struct {
+				CreatedBy  string `json:"created_by"`
+				EmptyLayer bool   `json:"empty_layer"`
+			} `json:"history"`
+		}
+		if json.Unmarshal(cb, &cfg) != nil || len(cfg.History) == 0 {
+			return nil
+		}
+		var ne []string
+		for _, h := range cfg.History {
+			if !h.EmptyLayer {
+				ne = append(ne, h.CreatedBy)
+			}
+		}
+		if len(ne) != len(m.Layers) {
+			return nil // reported by the count clause
+		}
+		for j, l := range m.Layers {
+			want, known := by[l.Digest]
+			if !known || conflict[l.Digest] {
+				continue
+			}
+			if ne[j] != want {
+				return fnd("history-misaligned", "manifest %s: layer %d (%s) is an unmodified source layer created by %q, but the history entry at its position says %q", d, j, l.Digest, want, ne[j])
+			}
+		}
+		return nil
+	}
+	return walk(root, 0)
+}
+
 // evaluate materialises the case, applies the program and runs every oracle clause.
 func evaluate(c Case) outcome {
 	b := build(c)
@@ -165,6 +264,10 @@ func evaluate(c Case) outcome {
 				fmt.Fprintf(os.Stderr, "#%d %s %s %s?%s -> %d %s\n", x.Seq, x.Host, x.Method, x.Path, x.RawQuery, x.Status, x.Note)
 			}
 		}
+		return out
+	}
+	if f := historyAlignment(e, dig); f != nil {
+		out.F = f
 		return out
 	}
 	if f := sourceUntouched(e, ""); f != nil {
@@ -332,6 +435,20 @@ func recognise(c Case, b *built, f *finding) string {
 			return "added-layer-replaced-by-empty-blob-after-file-step"
 		}
 	case "layer-missing-at-target":
+		// source in a layout, a digest-algorithm step followed by a compression step: the descriptor names a
+		// sha512 digest that was never pushed (a second Close of the reader chain re-ran the digest side
+		// effects of the digest-algorithm step after the compression step had set the real digest)
+		if strings.HasPrefix(f.Digest, "sha512:") && c.Src == "layout" {
+			seenAlgo := false
+			for _, o := range c.Program {
+				if (o.Kind == "layer-digest-algo" || o.Kind == "digest-algo") && o.Algo == "sha512" {
+					seenAlgo = true
+				}
+				if o.Kind == "layer-compress" && seenAlgo {
+					return "layer-digest-from-digest-algo-step-after-double-close"
+				}
+			}
+		}
 		// a formerly external layer whose urls were removed was not copied to the other repository
 		if c.Tgt != "default" && c.Tgt != "tag" && c.Tgt != "replace" && hasKind(c, func(k string) bool { return k == "external-urls-rm" }) {
 			for _, m := range b.Images {
@@ -414,7 +531,7 @@ func popcount(x int) int {
 var (
 	hexRE = regexp.MustCompile(`(sha256|sha512):[0-9a-f]{8,}`)
 	numRE = regexp.MustCompile(`[0-9]+`)
-	tmpRE = regexp.MustCompile(`/[^ ]*c13[0-9]+/`)
+	tmpRE = regexp.MustCompile(`/[^ ]*c13[0-9]+/[^ :]*`)
 )
 
 func errClass(s string) string {
